@@ -67,10 +67,16 @@ def work(task):
         return prog.result()
     o = task.get("opts", {})
     for backend in o.get("backends", ["numpy"]):
-        view = checks.make_view(prog, ode, backend, schemes=["generalized_rush_larsen"], delta=o.get("delta", 1e-8))
+        view = checks.make_view(prog, ode, backend, schemes=["generalized_rush_larsen", "forward_generalized_rush_larsen"],
+                                delta=o.get("delta", 1e-8))
         if view is None:
             continue
         checks.check_grl(prog, view, m, o.get("delta", 1e-8))
+        # the accepted (deprecated) alias must honour delta as well
+        if view.has("forward_generalized_rush_larsen"):
+            checks.check_grl(prog, view, m, o.get("delta", 1e-8), fn="forward_generalized_rush_larsen", tag="|alias")
+        else:
+            prog.fact(f"{backend}|alias|exists", False, "MissingFunction", "forward_generalized_rush_larsen not emitted")
         if backend == "c":
             view.close()
     prog.nontrivial = prog.stats.solver_s > 0
